@@ -40,6 +40,11 @@ type Event struct {
 	Nbrk  int      `json:"nbrk"`
 	Nintr int      `json:"nintr"`
 	Other []string `json:"other"`
+	// C19
+	G   int    `json:"g"`   // goroutine tag (0 = the goroutine that called Eval)
+	Bg  bool   `json:"bg"`  // the frame's context is not the interrupt context (background job)
+	Exc string `json:"exc"` // EvalReturn: ok | intr | other
+	K   int    `json:"k"`   // Mark(k), Settled(k)
 }
 
 func (e *Event) norm() {
@@ -83,13 +88,16 @@ type Step struct {
 
 func (s Step) role() string {
 	switch s.Ev {
-	case "AcqEnter", "AcqRet", "Spawn", "Returned":
-		return "F"
+	case "AcqEnter", "AcqRet", "Spawn", "Returned", "PEnter", "PStart":
+		return "F" // the feeder is the goroutine that runs the peach pipeline: goroutine 0 in the replays
 	case "CancelStart":
 		return "C"
 	}
 	return "W" + strconv.Itoa(s.I)
 }
+
+// StallLimit: a forced schedule is given up (never a verdict) when its next step does not arrive this long.
+var StallLimit = 15 * time.Second
 
 type arrival struct {
 	step    Step
@@ -113,6 +121,13 @@ type Run struct {
 	Cancel   context.CancelFunc // C19 replays
 
 	Diverged string // why the forced schedule was abandoned ("" = followed to its end)
+
+	// C19 (intr.go)
+	intr    *IntrJob
+	ctx     context.Context
+	tags    map[int64]int // goroutine id -> tag
+	sink    func(Event)   // called under the tracer lock for every event
+	peachFm *eval.Frame
 }
 
 var current atomic.Pointer[Run]
@@ -124,22 +139,41 @@ func init() {
 			return
 		}
 		switch point {
+		case "pipeline.enter", "pipeline.start":
+			if r.intr != nil {
+				r.pipelineHook(fm, point)
+			}
 		case "peach.acquire-enter":
+			r.instance(fm)
 			r.at(Step{"AcqEnter", 0}, nil)
 		case "peach.acquire-return":
 			r.at(Step{"AcqRet", 0}, nil)
 		case "peach.spawn":
+			r.instance(fm)
 			r.at(Step{"Spawn", 0}, nil)
 		case "peach.release":
 			r.mu.Lock()
 			i, ok := r.gids[goid()]
+			late := fm != r.peachFm
 			r.mu.Unlock()
+			if late {
+				// a worker of an EARLIER peach call that had not yet released when that call returned
+				r.log(Event{Ev: "LateRelease"})
+				return
+			}
 			if !ok {
 				i = -1
 			}
 			r.at(Step{"Release", i}, nil)
 		}
 	}
+}
+
+// instance notes which peach call (identified by its frame) the feeder hooks belong to.
+func (r *Run) instance(fm *eval.Frame) {
+	r.mu.Lock()
+	r.peachFm = fm
+	r.mu.Unlock()
 }
 
 func goid() int64 {
@@ -182,6 +216,9 @@ func (r *Run) at2(s Step, pre func(), fill func(e *Event)) {
 	}
 	e.norm()
 	r.evs = append(r.evs, e)
+	if r.sink != nil {
+		r.sink(e)
+	}
 	r.mu.Unlock()
 	if logged != nil {
 		close(logged)
@@ -192,6 +229,9 @@ func (r *Run) log(e Event) {
 	e.norm()
 	r.mu.Lock()
 	r.evs = append(r.evs, e)
+	if r.sink != nil {
+		r.sink(e)
+	}
 	r.mu.Unlock()
 }
 
@@ -483,18 +523,27 @@ func (r *Run) follow(sched []Step, done <-chan error, watchdog <-chan time.Time)
 			continue
 		}
 		for waiting[want].release == nil {
+			stall := time.NewTimer(StallLimit)
 			select {
+			case <-stall.C:
+				// nothing arrived for a long while: the real code cannot (or is too slow to) take this
+				// step now. Not a verdict: the schedule is given up, the run continues free and is judged.
+				free(fmt.Sprintf("step %d: stalled waiting for %s(%d)", k, want.Ev, want.I))
+				return drain()
 			case a := <-r.arrivals:
+				stall.Stop()
 				waiting[a.step] = a
 				if exp, ok := nextOf(a.step.role(), k); !ok || exp != a.step {
 					free(fmt.Sprintf("step %d: %s(%d) arrived, the schedule has %v next for that goroutine", k, a.step.Ev, a.step.I, exp))
 					return drain()
 				}
 			case evalErr = <-done:
+				stall.Stop()
 				returned = true
 				free(fmt.Sprintf("step %d: the evaluation returned, the schedule expects %s(%d)", k, want.Ev, want.I))
 				return evalErr, nil
 			case <-watchdog:
+				stall.Stop()
 				return nil, fmt.Errorf("replay stuck at step %d waiting for %s(%d)\n%s", k, want.Ev, want.I, dump())
 			}
 		}
